@@ -6,6 +6,7 @@ import Driver.DblDrv
 import Driver.VecDrv
 import Driver.TokDrv
 import Driver.FmtDrv
+import Driver.ValDrv
 open Cgreen.Drv
 
 /-- Read all of stdin as lines. -/
@@ -38,6 +39,9 @@ def main (args : List String) : IO UInt32 := do
     for b in blocks lines do
       for l in Cgreen.Drv.VC.runLines (stp.toNat?.getD 100) b do out.putStrLn l
       out.putStrLn "---"
+    return 0
+  | ["val"] =>
+    for l in lines do out.putStrLn (Cgreen.Drv.VL.evalLine l)
     return 0
   | ["fmt"] =>
     for l in lines do out.putStrLn (Cgreen.Drv.FM.evalLine l)
